@@ -75,8 +75,21 @@ def check_sat(fmls, timeout_ms=10000, want_model=True, use_cvc5=True):
     returns (status in {'unsat','sat','unknown'}, model dict or None, seconds, backend)"""
     t0 = time.time()
     so = z3.Solver()
-    so.set('timeout', int(timeout_ms))
     so.add(*fmls)
+    if os.environ.get('VERIF_NLSAT_FIRST', '1') == '1' and not _has_uf(fmls):
+        try:
+            t = z3.TryFor(z3.Then('simplify', 'purify-arith', 'propagate-values', 'solve-eqs', 'qfnra-nlsat'),
+                          int(timeout_ms) // 2)
+            s2 = t.solver()
+            s2.add(*fmls)
+            r2 = s2.check()
+            if r2 == z3.unsat:
+                return 'unsat', None, time.time() - t0, 'z3-nlsat'
+            if r2 == z3.sat:
+                return 'sat', (_model_to_dict(s2.model()) if want_model else None), time.time() - t0, 'z3-nlsat'
+        except z3.Z3Exception:
+            pass
+    so.set('timeout', int(timeout_ms))
     r = so.check()
     if r == z3.unsat:
         return 'unsat', None, time.time() - t0, 'z3'
